@@ -261,13 +261,21 @@ def truthy(x):
     return bool(x)
 
 
-def do_step(world, cfg, step, prev):
+_TPL_CLOCK = [0]
+
+
+def do_step(world, cfg, step, prev, pipe=None):
     """applies one step of a history (data/template versions, deletions), runs the pipeline once, checks it.
-    prev is the previous step (or None).  Returns the list of (fid, text)."""
-    kind = cfg["kind"]
+    prev is the previous step (or None).  pipe = {} makes the elements be built once and reused by later calls
+    (cfg['reuse']), otherwise every run gets fresh elements (a new process).  Returns the list of (fid, text)."""
+    _TPL_CLOCK[0] += 1
     for k in ("t", "g"):
-        with open(os.path.join(world.tpl, k + ".tex"), "w") as f:
+        tp = os.path.join(world.tpl, k + ".tex")
+        with open(tp, "w") as f:
             f.write(tpl_source("group" if k == "g" else "single", step["tpl"]))
+        # a strictly increasing mtime: the template loader of a reused RenderLaTeX must see every edit
+        mt = time.time_ns() - 10 * AGE + _TPL_CLOCK[0] * 10 ** 9
+        os.utime(tp, ns=(mt, mt))
     for rel in step["delete"]:
         p = os.path.join(world.out, rel)
         if os.path.exists(p):
@@ -279,7 +287,15 @@ def do_step(world, cfg, step, prev):
     exc = None
     try:
         with watchdog(20):
-            seq = build(world, cfg, taps)
+            if pipe is None:
+                seq = build(world, cfg, taps)
+            else:
+                if "seq" not in pipe:
+                    pipe["taps"] = []
+                    pipe["seq"] = build(world, cfg, pipe["taps"])
+                taps = pipe["taps"]
+                del taps[:]
+                seq = pipe["seq"]
             results = list(seq.run(iter(make_flow(cfg, step["data"]))))
     except Timeout:
         exc = "Timeout"
@@ -314,7 +330,7 @@ def check(world, cfg, step, prev, pre, post, taps, results, log, calls, exc):
     def written(rel):
         return rel in post and (rel not in pre or post[rel][1] != pre[rel][1])
 
-    latex_lines, png_lines, known_lines = collections.Counter(), collections.Counter(), set()
+    latex_lines, png_lines = collections.Counter(), collections.Counter()
     for line in log:
         if line.startswith("latex "):
             latex_lines[line[6:]] += 1
@@ -564,7 +580,8 @@ def check(world, cfg, step, prev, pre, post, taps, results, log, calls, exc):
 
 # ---------------------------------------------------------------------------------------------- histories
 def describe(cfg, history):
-    txt = ["%s pipeline, %d plot(s), mode %s%s" % (cfg["kind"], cfg["n"], cfg["mode"], ", dirname" if cfg.get("dirname") else "")]
+    txt = ["%s pipeline, %d plot(s), mode %s%s%s" % (cfg["kind"], cfg["n"], cfg["mode"], ", dirname" if cfg.get("dirname") else "",
+                                                      ", same element objects in every run" if cfg.get("reuse") else "")]
     prev = None
     for k, s in enumerate(history):
         if prev is None:
@@ -586,8 +603,9 @@ def run_history(cfg, history, world=None):
     try:
         world.restore({})
         res, prev = [], None
+        pipe = {} if cfg.get("reuse") else None
         for s in history:
-            res.append(do_step(world, cfg, s, prev))
+            res.append(do_step(world, cfg, s, prev, pipe))
             prev = s
         return res
     finally:
@@ -667,7 +685,7 @@ def random_history(rng, lo, hi):
     kind = "group" if rng.random() < 0.25 else "single"
     n = rng.randint(2, 3) if kind == "group" else rng.randint(1, 3)
     cfg = {"kind": kind, "n": n, "mode": "default" if rng.random() < 0.5 else rng.choice(MODES[1:]),
-           "dirname": kind == "single" and rng.random() < 0.3}
+           "dirname": kind == "single" and rng.random() < 0.3, "reuse": rng.random() < 0.35}
     files = all_files(cfg)
     hist = [{"data": [rng.randint(0, 2) for _ in range(n)], "tpl": rng.randint(0, 1), "delete": []}]
     for _ in range(rng.randint(lo, hi) - 1):
@@ -782,7 +800,7 @@ def scope_write(R, root):
         R.case(True, case)
         if bad:
             fid = ROW10 if bad[0] == "ROW10" else "Write.run/" + bad[0]
-            R.fail(fid, "Write(%s).run on one value %r: %s" % (mode, case, bad[1]), case, {"fn": "replay_write", "args": [case]})
+            R.fail(fid, "Write(%s).run on one value %r: %s" % (mode, case, bad[1].replace(root, "<tmp>")), case, {"fn": "replay_write", "args": [case]})
     # special values
     R.scope("Write.run special values", "empty filename raises LenaRuntimeError; output.write False, data == filepath, non-string data "
             "pass unchanged and touch nothing; plain string without context goes to output_filename.txt; objects with write(); "
@@ -856,36 +874,42 @@ def scope_write(R, root):
             pass
     R.case(True)
     for fid, text in specials:
-        R.fail("Write.run/" + fid, text, None)
+        R.fail("Write.run/" + fid, text.replace(root, "<tmp>"), None)
     # two values in one flow: states are independent
     for s1, s2 in itertools.product(("missing", "same", "diff"), repeat=2):
-      try:
-        w = fresh()
-        mts = {}
-        for nm, st in (("a", s1), ("b", s2)):
-            if st != "missing":
-                mts[nm] = aged_write(os.path.join(out, nm + ".txt"), "D" + nm if st == "same" else "OLD")
-        res = list(w.run(iter([("Da", {"output": {"filename": "a"}}), ("Db", {"output": {"filename": "b"}})])))
         R.case(True, {"two values": [s1, s2]})
-        if len(res) != 2:
-            R.fail("Write.run/two-values-interfere", "flow of two values with file states %s,%s yielded %d values" % (s1, s2, len(res)), [s1, s2])
-        for (nm, st), r in zip((("a", s1), ("b", s2)), res):
-            p = os.path.join(out, nm + ".txt")
-            if not os.path.isfile(p):
-                R.fail("Write.run/two-values-interfere", "flow of two values with file states %s,%s: %s.txt does not exist" % (s1, s2, nm), [s1, s2])
-                continue
-            wr = nm not in mts or os.stat(p).st_mtime_ns != mts[nm]
-            ch = r[1]["output"].get("changed")
-            if open(p).read() != "D" + nm or wr != (st != "same"):
-                R.fail("Write.run/two-values-interfere", "flow of two values with file states %s,%s: %s written=%s content %r" % (s1, s2, nm, wr, open(p).read()), [s1, s2])
-            if st == "diff" and ch is not True:
-                R.fail("Write.run/changed-not-set-on-rewrite", "two values %s,%s: %s rewritten, changed=%r" % (s1, s2, nm, ch), [s1, s2])
-            if st == "same" and ch:
-                R.fail("Write.run/changed-leaks-between-values", "two values %s,%s: %s untouched but changed=%r" % (s1, s2, nm, ch), [s1, s2])
-            if st == "missing" and ch is not True:
-                R.fail(ROW10, "flow of two values (file states %s,%s): %s.txt had to be created, output.changed = %r" % (s1, s2, nm, ch), [s1, s2])
-      except Exception as e:
-        R.fail("Write.run/two-values-exception:" + type(e).__name__, "flow of two values with file states %s,%s: %s" % (s1, s2, str(e)[:150]), [s1, s2])
+        try:
+            two_values(R, fresh, out, s1, s2)
+        except Exception as e:
+            R.fail("Write.run/two-values-exception:" + type(e).__name__, "flow of two values with file states %s,%s: %s" % (s1, s2, str(e)[:150]), [s1, s2])
+
+
+def two_values(R, fresh, out, s1, s2):
+    w = fresh()
+    mts = {}
+    for nm, st in (("a", s1), ("b", s2)):
+        if st != "missing":
+            mts[nm] = aged_write(os.path.join(out, nm + ".txt"), "D" + nm if st == "same" else "OLD")
+    res = list(w.run(iter([("Da", {"output": {"filename": "a"}}), ("Db", {"output": {"filename": "b"}})])))
+    if len(res) != 2:
+        R.fail("Write.run/two-values-interfere", "flow of two values with file states %s,%s yielded %d values" % (s1, s2, len(res)), [s1, s2])
+    for (nm, st), r in zip((("a", s1), ("b", s2)), res):
+        p = os.path.join(out, nm + ".txt")
+        if not os.path.isfile(p):
+            R.fail("Write.run/two-values-interfere", "flow of two values with file states %s,%s: %s.txt does not exist" % (s1, s2, nm), [s1, s2])
+            continue
+        wr = nm not in mts or os.stat(p).st_mtime_ns != mts[nm]
+        ch = r[1]["output"].get("changed")
+        with open(p) as f:
+            content = f.read()
+        if content != "D" + nm or wr != (st != "same"):
+            R.fail("Write.run/two-values-interfere", "flow of two values with file states %s,%s: %s written=%s content %r" % (s1, s2, nm, wr, content), [s1, s2])
+        if st == "diff" and ch is not True:
+            R.fail("Write.run/changed-not-set-on-rewrite", "two values %s,%s: %s rewritten, changed=%r" % (s1, s2, nm, ch), [s1, s2])
+        if st == "same" and ch:
+            R.fail("Write.run/changed-leaks-between-values", "two values %s,%s: %s untouched but changed=%r" % (s1, s2, nm, ch), [s1, s2])
+        if st == "missing" and ch is not True:
+            R.fail(ROW10, "flow of two values (file states %s,%s): %s.txt had to be created, output.changed = %r" % (s1, s2, nm, ch), [s1, s2])
 
 
 def converter_case(world, case):
@@ -977,7 +1001,7 @@ def scope_converters(R, world):
         if bad:
             pre = "LaTeXToPDF.run/" if case["el"] == "latex" else "PDFToPNG.run/"
             fid = "converter/unexpected-command" if bad[0] == "unexpected-command" else pre + bad[0]
-            R.fail(fid, "%s on %r: %s" % (pre[:-5], case, bad[1]), case, {"fn": "replay_converter", "args": [case]})
+            R.fail(fid, "%s on %r: %s" % (pre[:-5], case, bad[1].replace(world.root, "<tmp>")), case, {"fn": "replay_converter", "args": [case]})
     lstates = [(s, c) for s in ("missing", "older", "newer") for c in ("absent", False, True)]
     R.scope("LaTeXToPDF.run decision (stub create_command)", "overwrite x pdf missing/older/newer than tex x output.changed absent/False/True for one value, "
             "and all 81 two-value flows without overwrite, a csv value in between: launch iff overwrite|missing|changed|(absent and tex newer)", True)
@@ -1282,35 +1306,28 @@ def body(R):
                     "ALL histories of 1..2 runs with the template kept and combined.png kept: members keep/change data, any subset of {p0.csv,p1.csv,combined.tex,combined.pdf} deleted (64 second runs)", True)
             dfs(R, world, cfg, 2, restrict=lambda s, prev: s["tpl"] == prev["tpl"] and "combined.png" not in s["delete"])
         # 5. random longer histories
-        nrand = 1800 if th else 90
+        nrand = 1500 if th else 90
         R.scope("random histories (single and group pipelines)", "%d seeded histories of 3..4 runs: 1..3 plots (groups of 2..3), data versions from {0,1,2} (returns to earlier "
-                "data possible), template from {0,1}, each file deleted with p=1/4, 20%% untouched reruns, all 5 settings, dirname on/off" % nrand, False)
+                "data possible), template from {0,1}, each file deleted with p=1/4, 20%% untouched reruns, all 5 settings, dirname on/off, "
+                "35%% with the same element objects reused by every run (else fresh elements per run)" % nrand, False)
         for _ in range(nrand):
             cfg, hist = random_history(rng, 3, 4)
-            world.restore({})
-            prev = None
-            for k, s in enumerate(hist):
-                problems = do_step(world, cfg, s, prev)
+            for k, problems in enumerate(run_history(cfg, hist, world)):
                 report(R, cfg, hist[:k + 1], problems)
-                prev = s
             R.case(True, {"cfg": cfg, "history": hist})
         if th:
-            R.scope("1 plot, default settings, 4 runs", "1500 seeded histories of exactly 4 runs drawn from the exhaustive step alphabet "
+            R.scope("1 plot, default settings, 4 runs", "1200 seeded histories of exactly 4 runs drawn from the exhaustive step alphabet "
                     "(keep/change data, keep/change template, 16 deletion subsets)", False)
             cfg = {"kind": "single", "n": 1, "mode": "default", "dirname": False}
             files = all_files(cfg)
-            for _ in range(1500):
+            for _ in range(1200):
                 hist = [{"data": [0], "tpl": 0, "delete": []}]
                 for k in range(1, 4):
                     p = hist[-1]
                     hist.append({"data": [k if rng.random() < 0.5 else p["data"][0]], "tpl": k if rng.random() < 0.5 else p["tpl"],
                                  "delete": [f for f in files if rng.random() < 0.5]})
-                world.restore({})
-                prev = None
-                for k, s in enumerate(hist):
-                    problems = do_step(world, cfg, s, prev)
+                for k, problems in enumerate(run_history(cfg, hist, world)):
                     report(R, cfg, hist[:k + 1], problems)
-                    prev = s
                 R.case(True)
         # 6. element decision tables
         scope_converters(R, world)
